@@ -529,8 +529,70 @@ func c18Binary(t *testing.T, r *vres.Report, dir string) {
 			<-done
 		}
 	}
+	// "an accepted configuration either starts a working proxy or fails with a clear error":
+	// configurations the loader accepts but that cannot start (certificate files missing, a
+	// plugin that does not exist, the proxy port taken) - with the logging section written out,
+	// left out, or partly given - must end the process with a non-zero status and an output
+	// that names the reason
+	busy, _ := net.Listen("tcp", "127.0.0.1:0")
+	busyPort := busy.Addr().(*net.TCPAddr).Port
+	defer busy.Close()
+	type failing struct {
+		name, yaml string
+		keywords   []string
+	}
+	fails := []failing{
+		{"tls-files-missing", fmt.Sprintf("server:\n  port: %d\n  tls:\n    enabled: true\n    certFile: /nonexistent/cert.pem\n    keyFile: /nonexistent/key.pem\n", freePort()), []string{"cert", "tls"}},
+		{"unknown-plugin", fmt.Sprintf("server:\n  port: %d\nplugins:\n  enabled: true\n  chain:\n    - name: no-such-plugin\n", freePort()), []string{"no-such-plugin", "plugin"}},
+		{"proxy-port-taken", fmt.Sprintf("server:\n  port: %d\n", busyPort), []string{"in use", "bind", fmt.Sprint(busyPort)}},
+	}
+	for _, fc := range fails {
+		for lname, logging := range map[string]string{"omitted": "", "level-only": "logging:\n  level: info\n", "format-only": "logging:\n  format: json\n", "both": "logging:\n  level: error\n  format: text\n", "empty-level": "logging:\n  level: \"\"\n"} {
+			y := fc.yaml + "backends:\n  - name: b1\n    address: http://127.0.0.1:9\n" + logging
+			path := filepath.Join(dir, "fail-"+fc.name+"-"+lname+".yaml")
+			os.WriteFile(path, []byte(y), 0o644)
+			if _, err := config.LoadConfig(path); err != nil {
+				continue // not an accepted configuration: not this clause's business
+			}
+			cmd := exec.Command(bin, "-config", path)
+			cmd.Dir = repo
+			var out bytes.Buffer
+			cmd.Stdout, cmd.Stderr = &out, &out
+			if err := cmd.Start(); err != nil {
+				t.Fatal(err)
+			}
+			done := make(chan error, 1)
+			go func() { done <- cmd.Wait() }()
+			var werr error
+			exited := false
+			select {
+			case werr = <-done:
+				exited = true
+			case <-time.After(10 * time.Second):
+				cmd.Process.Kill()
+				<-done
+			}
+			evals++
+			desc := fmt.Sprintf("accepted configuration that cannot start (%s), logging section %s", fc.name, lname)
+			outs.Add(fmt.Sprintf("fail/%s/%s/%v", fc.name, lname, exited))
+			named := false
+			for _, k := range fc.keywords {
+				if strings.Contains(strings.ToLower(out.String()), k) {
+					named = true
+				}
+			}
+			switch {
+			case !exited:
+				r.Violate("C18/unstartable-configuration-keeps-running/"+fc.name, desc+": the process was still running after 10 s; output: "+lastLines(out.String(), 3), 1, nil)
+			case werr == nil:
+				r.Violate("C18/unstartable-configuration-exits-zero/"+fc.name, desc+": exit status 0; output: "+lastLines(out.String(), 3), 1, nil)
+			case !named:
+				r.Violate("C18/no-clear-error/"+fc.name, fmt.Sprintf("%s: the process exited (%v) without saying why; its whole output: %q", desc, werr, lastLines(out.String(), 4)), 1, map[string]interface{}{"engine": "P", "test": "TestVerifC18", "yaml": y})
+			}
+		}
+	}
 	r.AddScenario(vres.Scenario{Name: "binary-on-shipped-files", Engine: "P", Evaluations: evals, Distinct: int64(outs.N()), Outcomes: outs.N(),
-		Rule: "the real binary is started on each shipped file (only the three listening ports moved to free ones) and must answer an HTTP request on the proxy port", Bound: "2 files", Exhaustive: true,
+		Rule: "the real binary is started on each shipped file (only the three listening ports moved to free ones) and must answer an HTTP request on the proxy port; on accepted configurations that cannot start it must exit non-zero and name the reason", Bound: "2 files + 3 unstartable configurations x 5 logging sections", Exhaustive: true,
 		Sample: outs.Map(), Extra: map[string]interface{}{"wall_s": time.Since(start).Seconds()}})
 }
 
